@@ -1,8 +1,8 @@
 """Shared table runner for 'tier method vs spec' checks."""
 
-from ..absint import Lin
+from ..absint import Lin, PyRaise
 from ..tables import (Atoms, TableRun, build_tier, compare_outcomes, declare_tier, read_tier, run_code, run_spec,
-                      run_states)
+                      run_states, tier_equal)
 from . import common
 
 
@@ -25,11 +25,30 @@ def tier_table(rep, rule, method, kind, k, extra, modes, call, spec, what, span_
         for mode in modes:
             def code(I):
                 tier = build_tier(I, kind, "T", ents, m, M)
-                res = call(I, tier, sy, mode)
+                before = read_tier(I, tier)
+                try:
+                    res = call(I, tier, sy, mode)
+                except PyRaise:
+                    # failure atomicity: whatever was raised, the receiver must be exactly as it was
+                    after = read_tier(I, tier)
+                    d_ = tier_equal(I, after, before, check_span=True)
+                    if d_ is None and any(x is not y for x, y in zip(after["entries"], before["entries"])) and False:
+                        d_ = "entries were rebuilt"
+                    if d_ is not None:
+                        return {"atomicity": "the call raised and left the receiver changed: %s" % d_}
+                    raise
                 d = read_tier(I, res if res is not None else tier)
                 d["printed"] = I.prints > 0
+                if res is not None and res is not tier:
+                    # a copy-returning operation: the receiver must be untouched
+                    d_ = tier_equal(I, read_tier(I, tier), before, check_span=True)
+                    if d_ is not None:
+                        return {"atomicity": "the operation returned a new tier but also changed its receiver: %s" % d_}
                 return d
             got, I = run_code(idx, st, code)
+            if got.kind == "ok" and isinstance(got.value, dict) and "atomicity" in got.value:
+                out.append((mode, False, got.value["atomicity"], None))
+                continue
             want = run_spec(idx, st, lambda O: spec(O, ents, m, M, sy, mode))
             if want.kind == "ok" and "printed" not in want.value and got.kind == "ok":
                 got.value.pop("printed", None)
